@@ -238,7 +238,7 @@ def pollFlushPayload (script : List WrEv) (w : Writer) : Except String (WOut Uni
         if frame.capacity < LENGTH_FIELD_LEN then .error "stream.rs: as_mut_capacity()[LENGTH_FIELD_LEN..]"
         else
           match writeMessage w1.nonce w1.payload.slice (frame.capacity - LENGTH_FIELD_LEN) with
-          | none => .ok { o with res := .err .other }
+          | none => .ok { o with w := { w1 with frame := frame }, res := .err .other }
           | some c =>
             let n := c.length
             -- `set_prefix((n as u16).to_le_bytes())`, `extend(LENGTH_FIELD_LEN + n)`
